@@ -1,23 +1,41 @@
 #!/usr/bin/env python3
+"""Mutation driver for the source tie of src/isotopic_pattern/baffling.rs (tools/gen_brain.py, coq/proofs/BrainTie.v).
+
+Every mutation is applied to a scratch copy of the crate, translated, and the 26 tie blocks are compiled twice:
+  strict  `gen_brain.py --ties`          model = translation for every Num (bit for bit for IEEE doubles)
+  field   `gen_brain.py --ties --field`  model = translation for every ordered field (OField)
+and a table  label / kind / strict / field  is printed.  Kinds:
+  break     changes what the function computes in exact arithmetic: must be FAILED in both modes
+  field     equal over every ordered field, different for doubles (operand order, x/t -> x*(1/t), mul_add, ..):
+            strict FAILED on the touched function, field OK
+  harmless  a structural edit the translator absorbs: OK in both modes
+  outside   leaves the translated subset: the function is SKIPPED
+  patch     a diff of harmless/ (applied with patch -p1); reported, no expectation
+A cell is `OK` (all 26 ties), or `FAILED f (+n)` = the first failing tie, n further ones (its dependents) failing with it,
+or `SKIPPED f (+n)`.  The last column says whether the row is as expected.
+
+  python3 tools/mutate_brain.py [label-prefix ...]      e.g.  mutate_brain.py A9 F  (no argument: everything)
+"""
 import subprocess, sys, os, shutil
-ROOT = "/tmp/agBB"
-SRC = ROOT + "/repo_src/src/isotopic_pattern/baffling.rs"
-ORIG = ROOT + "/scratch/baffling.orig.rs"
-orig = open(ORIG).read()
+ROOT = os.path.dirname(os.path.dirname(os.path.abspath(__file__)))
+PRISTINE = os.environ.get("MUTATE_REPO", ROOT + "/repo_src")
+SCRATCH = ROOT + "/scratch_repo"
+REL = "src/isotopic_pattern/baffling.rs"
+orig = open(os.path.join(PRISTINE, REL)).read()
 MUT = [
  # (label, kind, old, new)
  ("A1 vietes: sign flipped", "break", "let sign = if i % 2 == 0 { 1.0 } else { -1.0 };\n        let el = sign", "let sign = if i % 2 == 1 { 1.0 } else { -1.0 };\n        let el = sign"),
  ("A2 update_esp: k > order -> k >= order", "break", "} else if k > (order as usize) {", "} else if k >= (order as usize) {"),
  ("A3 isotopic_variants: 1e-10 -> 1e-9", "break", "if peak.intensity < 1e-10 {", "if peak.intensity < 1e-9 {"),
  ("A4 vietes: index off by one", "break", "coefficients[n - i - 1] / tail", "coefficients[n - i] / tail"),
- ("A5 update_power_sum: operand order", "break", "temp_ps += sign * self.elementary_symmetric_polynomial[j] * self.power_sum[k - j];", "temp_ps += sign * self.power_sum[k - j] * self.elementary_symmetric_polynomial[j];"),
+ ("A5 update_power_sum: operand order (s*e*p -> s*p*e)", "field", "temp_ps += sign * self.elementary_symmetric_polynomial[j] * self.power_sum[k - j];", "temp_ps += sign * self.power_sum[k - j] * self.elementary_symmetric_polynomial[j];"),
  ("A6 isotopic_variants: normalisation dropped", "break", "intensity: intensity_i / total,", "intensity: intensity_i,"),
  ("A7 update_power_sum: sign no longer alternates", "break", "for j in 1..k {\n                sign *= -1.0;", "for j in 1..k {\n                sign *= 1.0;"),
  ("A8 num_peaks: max(0) -> max(1)", "break", "Self::FixedCount(i) => i.saturating_sub(1).max(0),", "Self::FixedCount(i) => i.saturating_sub(1).max(1),"),
- ("A9 probability_vector: operand order", "break", "*= self.monoisotopic_peak.intensity * sign;", "*= sign * self.monoisotopic_peak.intensity;"),
+ ("A9 probability_vector: operand order (intensity*sign -> sign*intensity)", "field", "*= self.monoisotopic_peak.intensity * sign;", "*= sign * self.monoisotopic_peak.intensity;"),
  ("A10 center_mass_vector: one row fewer", "break", "for i in 0..(self.order + 1) as usize {", "for i in 0..self.order as usize {"),
  ("A11 update_order: min -> max", "break", "self.order = cmp::min(order, self.max_variants);", "self.order = cmp::max(order, self.max_variants);"),
- ("A12 isotopic_coefficients: operand order", "break", "cmp::Ordering::Equal => {\n                    accumulator.push(coef * isotope.abundance);", "cmp::Ordering::Equal => {\n                    accumulator.push(isotope.abundance * coef);"),
+ ("A12 isotopic_coefficients: operand order (coef*ab -> ab*coef, Equal arm)", "field", "cmp::Ordering::Equal => {\n                    accumulator.push(coef * isotope.abundance);", "cmp::Ordering::Equal => {\n                    accumulator.push(isotope.abundance * coef);"),
  ("A13 update: one zero fewer", "break", "(elt_params.order..self.order + 1).for_each(|_| {", "(elt_params.order..self.order).for_each(|_| {"),
  ("A14 max_variants: * -> +", "break", "elt.element.max_neutron_shift as i32 * *cnt", "elt.element.max_neutron_shift as i32 + *cnt"),
  ("A15 guess_npeaks: 0.9999 -> 0.999", "break", "composition.mass(), 0.9999) as i32;", "composition.mass(), 0.999) as i32;"),
@@ -34,24 +52,135 @@ MUT = [
  ("C5 isotopic_coefficients: the &mut parameter shadowed", "outside", "        let n = element.isotopes.len();\n", "        let n = element.isotopes.len();\n        let accumulator = &mut DVec::new();\n"),
  ("B5 phi_for: loop variable names, redundant parentheses, `element` inlined", "harmless", "            let element = elt.element;\n            phi += self\n                .constants\n                .nth_element_power_sum(element.symbol.as_ref(), order)\n                * (*cnt as f64);", "            phi += (self.constants.nth_element_power_sum(elt.element.symbol.as_ref(), order)) * ((*cnt) as f64);"),
  ("C3 update_order with a match on a literal", "outside", "        if order == -1 {\n            self.order = self.max_variants;\n        } else {\n            self.order = cmp::min(order, self.max_variants);\n        }", "        self.order = match order {\n            -1 => self.max_variants,\n            _ => cmp::min(order, self.max_variants),\n        };"),
+ # ---- field-equal rewrites: equal over every ordered field, different for IEEE doubles
+ ("F1 update_power_sum: product re-associated", "field", "temp_ps += sign * self.elementary_symmetric_polynomial[j] * self.power_sum[k - j];", "temp_ps += sign * (self.elementary_symmetric_polynomial[j] * self.power_sum[k - j]);"),
+ ("F2 isotopic_variants: / total -> * (1.0 / total)", "field", "intensity: intensity_i / total,", "intensity: intensity_i * (1.0 / total),"),
+ ("F3 update_power_sum: sign *= -1.0 -> sign = -sign (in the loop)", "field", "for j in 1..k {\n                sign *= -1.0;", "for j in 1..k {\n                sign = -sign;"),
+ ("F4 update_power_sum: a*b + c -> mul_add", "field", "temp_ps += sign * self.elementary_symmetric_polynomial[j] * self.power_sum[k - j];", "temp_ps = (sign * self.elementary_symmetric_polynomial[j]).mul_add(self.power_sum[k - j], temp_ps);"),
+ ("F5 center_mass_vector: sum re-associated/commuted, product regrouped", "field", "center += (*cnt as f64) * (sign * polynomial_term) * base_intensity * mono_mass;", "center = mono_mass * (base_intensity * ((*cnt as f64) * sign * polynomial_term)) + center;"),
+ ("F6 center_mass_vector: center / p -> center * (1.0 / p)", "field", "mass_vector.push(center / probability_vector[i]);", "mass_vector.push(center * (1.0 / probability_vector[i]));"),
+ ("F7 update_esp: sum / k -> (1.0 / k) * sum", "field", "                let el = (1..k + 1)\n", "                let el = (1.0 / k as f64) * (1..k + 1)\n", ("                    .sum::<f64>()\n                    / k as f64;", "                    .sum::<f64>();")),
+ ("F8 vietes: (s*c)/tail -> s*(c/tail)", "field", "let el = sign * coefficients[n - i - 1] / tail;", "let el = sign * (coefficients[n - i - 1] / tail);"),
+ ("F9 phi_for: phi += p*c -> phi = c*p + phi", "field", "            phi += self\n                .constants\n                .nth_element_power_sum(element.symbol.as_ref(), order)\n                * (*cnt as f64);", "            phi = (*cnt as f64) * self.constants.nth_element_power_sum(element.symbol.as_ref(), order) + phi;"),
+ ("F10 update_power_sum: last sign flip as 0.0 - sign, k as f64 first", "field", "            sign *= -1.0;\n            temp_ps += sign * self.elementary_symmetric_polynomial[k] * (k as f64);", "            sign = 0.0 - sign;\n            temp_ps += (k as f64) * sign * self.elementary_symmetric_polynomial[k];"),
+ ("F11 isotopic_variants: the 1e-10 test on a commuted product", "field", "            if peak.intensity < 1e-10 {", "            if (1.0 / total) * intensity_i < 1e-10 {"),
+ # ---- more semantics-changing mutations
+ ("A18 update_power_sum: a - b -> b - a (k - j -> j - k)", "break", "self.power_sum[k - j];", "self.power_sum[j - k];"),
+ ("A19 update_esp: wrong index (power_sum[j] -> power_sum[k])", "break", "sign * self.power_sum[j] * self.elementary_symmetric_polynomial[k - j]", "sign * self.power_sum[k] * self.elementary_symmetric_polynomial[k - j]"),
+ ("A20 update_esp: literal 1.0 -> 2.0 (k == 0)", "break", "self.elementary_symmetric_polynomial.push(1.0);", "self.elementary_symmetric_polynomial.push(2.0);"),
+ ("A21 isotopic_variants: < -> <= in the 1e-10 rule", "break", "if peak.intensity < 1e-10 {", "if peak.intensity <= 1e-10 {"),
+ ("A22 center_mass_vector: base_intensity dropped", "break", "center += (*cnt as f64) * (sign * polynomial_term) * base_intensity * mono_mass;", "center += (*cnt as f64) * (sign * polynomial_term) * mono_mass;"),
+ ("A23 isotopic_variants: intensity_i / total -> total / intensity_i", "break", "intensity: intensity_i / total,", "intensity: total / intensity_i,"),
+ ("A24 update_power_sum: temp_ps += -> temp_ps -= (a + b -> a - b)", "break", "temp_ps += sign * self.elementary_symmetric_polynomial[j] * self.power_sum[k - j];", "temp_ps -= sign * self.elementary_symmetric_polynomial[j] * self.power_sum[k - j];"),
+ ("A25 phi_mass_for: mass term dropped", "break", "        phi += self\n            .constants\n            .nth_element_power_sum_mass(element.element.symbol.as_ref(), order);\n        phi\n", "        phi\n"),
+ ("A26 center_mass_vector: center / p -> center * p", "break", "mass_vector.push(center / probability_vector[i]);", "mass_vector.push(center * probability_vector[i]);"),
+ ("A27 update_power_sum: sign = -sign only every other step (sign *= -1.0 -> sign *= sign)", "break", "for j in 1..k {\n                sign *= -1.0;", "for j in 1..k {\n                sign *= sign;"),
+ ("A28 probability_vector: x * (i*s) -> x + (i*s)", "break", "params.elementary_symmetric_polynomial[i] *= self.monoisotopic_peak.intensity * sign;", "params.elementary_symmetric_polynomial[i] += self.monoisotopic_peak.intensity * sign;"),
+ ("A29 isotopic_variants: x / total -> x * (1.0 / x)", "break", "intensity: intensity_i / total,", "intensity: intensity_i * (1.0 / intensity_i),"),
 ]
-only = sys.argv[1:]
-env = dict(os.environ, VERIF_REPO=ROOT + "/repo_src")
-for label, kind, old, new in MUT:
-    if only and not any(label.startswith(o) for o in only):
-        continue
-    if orig.count(old) != 1:
-        print("## %s: PATTERN FOUND %d TIMES" % (label, orig.count(old))); continue
-    open(SRC, "w").write(orig.replace(old, new))
-    r = subprocess.run(["python3", ROOT + "/tools/gen_brain.py", "--ties"], env=env, stdout=subprocess.PIPE, stderr=subprocess.STDOUT, universal_newlines=True)
-    lines = r.stdout.splitlines()
-    bad = [l for l in lines if l.startswith("tie ") and not l.endswith(": OK")]
-    skipped = [l for l in lines if l.startswith("skipped ")]
-    print("## %s [%s] exit=%d" % (label, kind, r.returncode))
-    for l in skipped: print("   " + l[:200])
-    for l in bad: print("   " + l[:160])
-    if not bad: print("   all ties OK")
-    sys.stdout.flush()
-open(SRC, "w").write(orig)
-r = subprocess.run(["python3", ROOT + "/tools/gen_brain.py"], env=env, stdout=subprocess.PIPE, stderr=subprocess.STDOUT, universal_newlines=True)
-print("## restored: " + r.stdout.strip().splitlines()[-1][:120])
+
+PATCHES = [
+ ("H10 Newton signs by parity (harmless/H10)", "patch", "harmless/H10_brain_sign_by_parity.diff"),
+ ("H13 (harmless/H13_agent_C03)", "patch", "harmless/H13_agent_C03.diff"),
+ ("H18 (harmless/H18_agent_C08)", "patch", "harmless/H18_agent_C08.diff"),
+ ("H19 (harmless/H19_agent_C09)", "patch", "harmless/H19_agent_C09.diff"),
+]
+
+
+def fresh_scratch():
+    shutil.rmtree(SCRATCH, ignore_errors=True)
+    os.makedirs(SCRATCH)
+    shutil.copytree(os.path.join(PRISTINE, "src"), os.path.join(SCRATCH, "src"))
+
+
+def summarise(ties):
+    bad = [l for l in ties if not l.endswith(": OK")]
+    if not bad:
+        return "OK", []
+    skipped = [l.split()[1].rstrip(":") for l in bad if ": SKIPPED" in l]
+    failed = [l.split()[1].rstrip(":") for l in bad if ": SKIPPED" not in l]
+    first = (skipped or failed)[0]
+    word = "SKIPPED" if skipped else "FAILED"
+    return "%s %s%s" % (word, first, " (+%d)" % (len(bad) - 1) if len(bad) > 1 else ""), bad
+
+
+def run_ties():
+    """both modes in one run of the translator (the generated file is compiled once)"""
+    env = dict(os.environ, VERIF_REPO=SCRATCH)
+    r = subprocess.run(["python3", ROOT + "/tools/gen_brain.py", "--ties", "--both"], env=env, stdout=subprocess.PIPE, stderr=subprocess.STDOUT, universal_newlines=True)
+    ties = [l for l in r.stdout.splitlines() if l.startswith("tie ")]
+    if not ties:
+        msg = "NO RESULT (%s)" % (r.stdout.strip().splitlines() or ["?"])[-1][:80]
+        return (msg, []), (msg, [])
+    pick = lambda mode: [l.replace(" [%s]" % mode, "", 1) for l in ties if (" [%s]: " % mode) in l]
+    return summarise(pick("strict")), summarise(pick("field"))
+
+
+def verdict(kind, strict, field):
+    ok = lambda c: c == "OK"
+    if kind == "break":
+        return "as expected" if strict.startswith("FAILED") and field.startswith("FAILED") else "UNEXPECTED"
+    if kind == "field":
+        return "as expected" if strict.startswith("FAILED") and ok(field) else "UNEXPECTED"
+    if kind == "harmless":
+        return "as expected" if ok(strict) and ok(field) else "UNEXPECTED"
+    if kind == "outside":
+        return "as expected" if strict.startswith("SKIPPED") and field.startswith("SKIPPED") else "UNEXPECTED"
+    return ""
+
+
+def main():
+    only = [a for a in sys.argv[1:] if not a.startswith("-")]
+    verbose = "-v" in sys.argv[1:]
+    want = lambda label: not only or any(label.startswith(o) for o in only)
+    rows = []
+    def one(label, kind):
+        (strict, bs), (field, bf) = run_ties()
+        rows.append((label, kind, strict, field, verdict(kind, strict, field)))
+        print("## %-90s %-8s strict: %-40s field: %-40s %s" % rows[-1])
+        if verbose:
+            for l in bs: print("     strict " + l[:220])
+            for l in bf: print("     field  " + l[:220])
+        sys.stdout.flush()
+    if want("U0"):
+        fresh_scratch()
+        one("U0 unchanged source", "harmless")
+    for m in MUT:
+        label, kind, reps = m[0], m[1], [(m[2], m[3])] + list(m[4:])
+        if not want(label):
+            continue
+        text, bad = orig, False
+        for old, new in reps:
+            if text.count(old) != 1:
+                print("## %s: PATTERN FOUND %d TIMES" % (label, text.count(old))); bad = True; break
+            text = text.replace(old, new)
+        if bad:
+            continue
+        fresh_scratch()
+        open(os.path.join(SCRATCH, REL), "w").write(text)
+        one(label, kind)
+    for label, kind, diff in PATCHES:
+        if not want(label):
+            continue
+        fresh_scratch()
+        r = subprocess.run(["patch", "-p1", "-s", "-i", os.path.join(ROOT, diff)], cwd=SCRATCH, stdout=subprocess.PIPE, stderr=subprocess.STDOUT, universal_newlines=True)
+        if r.returncode != 0:
+            print("## %s: patch does not apply to src/: %s" % (label, r.stdout.strip().splitlines()[-1:]))
+        one(label, kind)
+    # restore coq/gen/BrainGen.v (and its .vo) from the pristine source
+    fresh_scratch()
+    r = subprocess.run(["python3", ROOT + "/tools/gen_brain.py", "--ties", "--only=polymap_new"], env=dict(os.environ, VERIF_REPO=SCRATCH),
+                       stdout=subprocess.PIPE, stderr=subprocess.STDOUT, universal_newlines=True)
+    print("## restored: " + r.stdout.strip().splitlines()[0][:100])
+    shutil.rmtree(SCRATCH, ignore_errors=True)
+    w = max(len(r[0]) for r in rows) if rows else 10
+    print()
+    print("%-*s | %-8s | %-38s | %-38s | %s" % (w, "label", "kind", "strict", "field", ""))
+    print("-" * (w + 100))
+    for r in rows:
+        print("%-*s | %-8s | %-38s | %-38s | %s" % ((w,) + r))
+    return 1 if any(r[4] == "UNEXPECTED" for r in rows) else 0
+
+
+if __name__ == "__main__":
+    sys.exit(main())
